@@ -2,6 +2,7 @@
 """seed_eval.py <seed_dir> <PROP> [more PROPs...] : confirm a seeded change (tests pass, demo flips) in a scratch worktree,
 then run the named quick checks against /repo with the patch applied and restore /repo."""
 import sys, os, subprocess, json, shutil, time
+os.environ['VERIF_NO_EVIDENCE'] = '1'       # runs against a patched /repo must not rewrite the evidence files
 seed = os.path.abspath(sys.argv[1])
 props = sys.argv[2:]
 wt = '/tmp/sv-%d' % os.getpid()
